@@ -145,7 +145,7 @@ def run(ctx):
     def add_build(vals, tag, inrange):
         line = "mii-build " + R.show_vals(vals)
         real = R.mii_build(names, kinds, vals)
-        C.add(line, real, "mii-build:" + tag, {"vals": dict(zip(names, vals))})
+        C.add(line, real, "mii-build:" + tag, {"fields": dict(zip(names, vals)), "how": "MiiData with these attributes .build() vs the 68-field reference layout"}, reference=inrange)
         if inrange:
             C.add("mii-inrange " + R.show_vals(vals), "ok true", "mii-inrange", {"vals": dict(zip(names, vals))})
             why = oracle_roundtrip(vals)
@@ -268,7 +268,7 @@ def run(ctx):
         C.add("b64-enc " + hx(d), R.wrap(base64.b64encode, d), "b64-enc")
         C.add("url-enc " + hx(d), R.wrap(lambda d: base64.b64encode(d, b"-_"), d), "url-enc")
         C.add("url-enc-nopad " + hx(d), R.wrap(R.url_enc_nopad, d), "url-enc-nopad")
-        C.add("nasc-enc " + hx(d), R.wrap(nasc.b64encode, d), "nasc-enc")
+        C.add("nasc-enc " + hx(d), R.wrap(nasc.b64encode, d), "nasc-enc", {"data": d.hex(), "how": "nasc.b64encode(data) vs the reference 3DS alphabet (+/= -> .-*)"}, reference=True)
         e_std, e_url, e_nopad, e_nasc = base64.b64encode(d).decode(), base64.b64encode(d, b"-_").decode(), R.url_enc_nopad(d), nasc.b64encode(d)
         C.add("b64-dec " + cps(e_std), R.wrap(base64.b64decode, e_std), "b64-dec:valid")
         C.add("url-dec " + cps(e_url), R.wrap(lambda t: base64.b64decode(t, "-_"), e_url), "url-dec:valid")
